@@ -1,5 +1,6 @@
 import GorumsV.Props.C18
 import GorumsV.Tie.C05
+import GorumsV.Tie.C09
 /-! Tie for C18: the deletion guards of Tie/C05; digests in Tie/C18Skel.lean. -/
 section Audit
 open GorumsV.C18
@@ -9,4 +10,10 @@ open GorumsV.C18
 #print axioms routers_bounded
 #print axioms deleteRouter_removes
 #print axioms streamDown_clears
+#print axioms no_router_after_error
+#print axioms GorumsV.C05.replaceCancel_answers_written
+#print axioms GorumsV.Tie.C09.replacement_good
+#print axioms GorumsV.C09.lost_is_cancelled
+#print axioms GorumsV.C09.parked_means_nothing_lost
+#print axioms GorumsV.C09.pinned_leak_reachable
 end Audit
